@@ -631,13 +631,17 @@ func (rn *runner) pickWaiting(r *vh.Rand, kind byte) (int, bool) {
 	return ids[r.Intn(len(ids))], true
 }
 
+// maxAcceptors: blocked AcceptStream callers per stream type (a small worker pool accepting from one connection)
+const maxAcceptors = 3
+
 func (rn *runner) hasAcceptor(bidi bool) bool {
+	n := 0
 	for c, k := range rn.waiting {
 		if k == 'a' && rn.wbidi[c] == bidi {
-			return true
+			n++
 		}
 	}
-	return false
+	return n >= maxAcceptors
 }
 
 func (rn *runner) genFrame(r *vh.Rand) string {
@@ -758,7 +762,7 @@ func (rn *runner) GenOp(r *vh.Rand, i int) string {
 			if rn.hasAcceptor(bidi) {
 				bidi = !bidi
 				if rn.hasAcceptor(bidi) {
-					continue // one acceptor per stream type at a time (see checks/C15.json)
+					continue // at most maxAcceptors blocked acceptors per stream type
 				}
 			}
 			rn.nextCid++
